@@ -135,7 +135,8 @@ Fixpoint decl_fields (m : msgd) (exs : list exposed) (fs : list field) : res (li
 Definition decl_props (m : msgd) : res (list exposed * list prop) :=
   rbind (decl_fields m (decl_exposed m 0 (m_oneofs m)) (m_fields m)) (fun '(exs, ps) =>
   if existsb ex_pending exs then RErr "oneof has not been added"
-  else if negb (props_valid ps) then RErr "property has no JSON name"
+  else if negb (exs_names_ok exs) then RErr "property name is used twice (members of an exposed oneof)"
+  else if negb (props_valid ps) then RErr "property has no JSON name, or a JSON name is used twice"
   else ROk (exs, ps)).
 
 (* the root schema of a message *)
